@@ -74,6 +74,12 @@ class C08(Prop):
                     r = rng.randrange(n)
                     for c in spec["cols"]:
                         c["values"][r] = {"f": "nan"} if c["kind"] == "float" else ""
+            if i % 7 == 3:
+                # a text column of pandas' own choosing (str) with an empty cell below the first row: the cell is NaN in the frame
+                for c in spec["cols"]:
+                    if c["kind"] == "text" and len(c["values"]) >= 2:
+                        c["infer"] = True
+                        c["values"][rng.randrange(1, len(c["values"]))] = None
             if i % 6 == 2 and spec["cols"]:
                 # columns named like the keys of the JSON layout itself
                 k = min(len(spec["cols"]), rng.randint(1, 3))
@@ -142,7 +148,8 @@ class C08(Prop):
         if not obs["has_inf"] and obs["dumps"] != "ok":
             fails.append(f"strict-json: json.dumps(allow_nan=False) raised {obs['dumps']}")
         missing_dt = any(c["kind"] == "datetime" and any("nat" in v for v in c["values"]) for c in spec["cols"])
-        if not missing_dt:
+        missing_text = any(c["kind"] == "text" and any(v is None for v in c["values"]) for c in spec["cols"])
+        if not missing_dt and not missing_text:      # a missing text travels as null and comes back as the text 'None' (R2)
             if "back_exc" in obs:
                 fails.append(f"roundtrip-raised: {obs['back_exc']}")
             elif "back" in obs:
@@ -155,6 +162,8 @@ class C08(Prop):
         if "json" not in obs:
             return None
         spec = case["table"]
+        if any(c.get("infer") for c in spec["cols"]):
+            return None      # the frame's own spelling of an empty text cell: judged by the oracle (purity) only
         cols = g_list([g_pair(g_pair(g_str(n), g_str(u)), g_list([C.to_coq(v) for v in vals])) for n, u, vals in obs["scalars"]])
         jd = obs["json"]
         if obs["impure"]:
